@@ -232,6 +232,40 @@ def search(ctx, deep):
                 else:
                     continue
                 break
+    # near the lower boundary but not on it: coordinates of magnitude 1e-7 .. 1e-12 are ordinary arguments — the
+    # uniform-margin identities C(u,1) = u, C(1,v) = v hold to 1e-3 relative plus the absolute rounding of the family's
+    # own formula (Frank: -log(1+x)/theta carries an absolute error of order eps/|theta|; Clayton and Gumbel are exact
+    # to 1e-13 relative there) and C(u, 1/2) lies in [0, u]
+    tiny = np.array([1e-7, 5e-8, 1e-9, 3e-5])
+    for fam in B.FAMS:
+        for th in B.theta_all(fam):
+            us = np.array([u for u in tiny if not (fam == 'clayton' and th * -math.log10(u) > 290)])
+            if not len(us):
+                continue
+            c = B.make(fam, th)
+            slack = 1e-11 + (1e-14 / abs(th) if fam == 'frank' else 0.0)
+            checked += 1
+            try:
+                with np.errstate(all='ignore'):
+                    a = np.asarray(c.cumulative_distribution(np.column_stack([us, np.ones_like(us)])), dtype=float)
+                    b = np.asarray(c.cumulative_distribution(np.column_stack([np.ones_like(us), us])), dtype=float)
+                    d = np.asarray(c.cumulative_distribution(np.column_stack([us, np.full_like(us, 0.5)])), dtype=float)
+            except Exception as e:  # noqa
+                found += 1
+                ctx.fail_input(f'{fam}.cumulative_distribution', {'theta': th, 'u': us.tolist()}, f'{vc.exc_kind(e)}: {e}',
+                               'evaluates near the lower boundary', f'{fam}.cumulative_distribution:raises-near-boundary')
+                continue
+            for name, arr in (('C(u,1)', a), ('C(1,u)', b)):
+                if not np.all(np.abs(arr - us) <= 1e-3 * us + slack):
+                    found += 1
+                    ctx.fail_input(f'{fam}.cumulative_distribution', {'theta': th, 'u': us.tolist(), 'identity': name}, arr.tolist(),
+                                   'uniform margins: C(u,1) = u and C(1,u) = u to 1e-3 relative (+ formula rounding) for u in [1e-9, 1e-4]',
+                                   f'{fam}.cumulative_distribution:margin-near-lower-boundary')
+                    break
+            if not (np.all(d >= 0) and np.all(d <= us * (1 + 1e-6) + slack)):
+                found += 1
+                ctx.fail_input(f'{fam}.cumulative_distribution', {'theta': th, 'u': us.tolist(), 'v': 0.5}, d.tolist(),
+                               '0 <= C(u, 1/2) <= u', f'{fam}.cumulative_distribution:frechet-near-lower-boundary')
     # purity: a call leaves the caller's array as it was, returns memory of its own, and an earlier result does not
     # change when the same or another object of the family is called again on an equally shaped batch
     for fam in B.FAMS:
